@@ -107,6 +107,10 @@ Eval vm_compute in (length cases, length (filter (fun c => negb (ok c)) cases)).
     rd2 = cfg("NEARSQUARE", months=12, flow=("BOREHOLE", 0.4))
     rd2["_design_first_set_with"] = {"flow_type": "SYSTEM", "flow_rate": 3.5}
     dcfgs += [rd, rd2]
+    # a SMALL system flow (a few boreholes in series with a small pump): below 1 L/s for the whole system
+    dcfgs.append(cfg("NEARSQUARE", months=12, loads={"kind": "balanced", "scale": 14000.0, "seed": 3}, flow=("SYSTEM", 0.9)))
+    if not quick:
+        dcfgs.append(cfg("RECTANGLE", months=12, loads={"kind": "heating", "scale": 9000.0, "seed": 5}, flow=("SYSTEM", 0.55)))
     for er in e2e_runs(dcfgs):
         if not er.get("ok"):
             chk.broken.append({"name": "end-to-end run failed", "detail": json.dumps({k: er.get(k) for k in ("exc", "msg")})})
